@@ -268,6 +268,8 @@ class CallMixin:
         try:
             self.eval_lets(c, p, sfc)
             env = dict(p.env)
+            old = (dict(env), old[1], old[2])      # ghost definitions are visible inside old(...)
+            sfc.old = old
             # argument types
             for (n, t) in c.params:
                 if n not in env:
@@ -293,6 +295,9 @@ class CallMixin:
                     q.assume(cond)
                     q.trace.append('%s raises %s' % (c.target.split('.')[-1], ecls))
                     self.havoc_modifies(c, q, sfc, exceptional=True)
+                    for e in c.ensures_raise:
+                        q.env = dict(env)
+                        q.assume(self.spec_bool(e, q, sfc))
                     q.env = dict(saved_env)
                     out.append(Res(q, exc=VExc(ecls, [], 'raised by ' + c.target)))
             for n_ in none_of:
